@@ -128,7 +128,12 @@ impl ElementRaw {
                                             );
                                         }
                                     }
-                                    model_locked.reference_origins.insert(refpath_new, reflist);
+                                    // the new path might already be the target of other (so far invalid) references
+                                    model_locked
+                                        .reference_origins
+                                        .entry(refpath_new)
+                                        .or_default()
+                                        .extend(reflist);
                                 }
                             }
                         }
@@ -843,7 +848,12 @@ impl ElementRaw {
                             ref_element.0.write().set_character_data(refstr.clone(), version)?;
                         }
                     }
-                    model_locked.reference_origins.insert(refstr, ref_elements);
+                    // the new path might already be the target of other (so far invalid) references
+                    model_locked
+                        .reference_origins
+                        .entry(refstr)
+                        .or_default()
+                        .extend(ref_elements);
                 }
             }
         }
